@@ -220,7 +220,7 @@ def check_C19(ctx):
     viol = [{'clause': f['fails'][0][0], 'all_clauses': [c[0] for c in f['fails']],
              'where': ('schedule ' + ' '.join(l for _, l in f['rec']['beh'])) if f['rec']['rkind'] == 'schedule' else
                       'uncontrolled %s limit=%sms dur=%sms inner=%sms' % (f['rec']['kind'], f['rec']['limit_ms'], f['rec']['dur_ms'], f['rec']['inner_ms']),
-             'payload': {'layer': 'tl', 'rec': f['rec']}} for f in res['fails'] if any(c[0].startswith('C19.') or c[0].startswith('machinery.') for c in f['fails'])]
+             'payload': {'layer': 'tl', 'rec': f['rec']}} for f in res['fails'] if any(c[0].startswith('C19.') for c in f['fails'])]
     bad_mc = [n for n, m in res['mc'].items() if not m['as_expected']]
     if bad_mc:
         viol.append({'clause': 'C19.model_configuration_unexpected', 'where': 'TimeLimiter.tla configurations %s' % bad_mc,
@@ -231,9 +231,10 @@ def check_C19(ctx):
                    'interleavings); every complete behaviour of the single-call model is emitted and, when the director can '
                    'force it through the hook points (adsg_core/_verif.point) and the gates of the workload function, executed '
                    'against the real run_timeout; plus uncontrolled executions with durations 0.1x-2.6x the limit for '
-                   'sleeping, raising, own-TimeoutError, native-blocking and interrupt-swallowing functions and nested calls',
+                   'sleeping, raising, own-TimeoutError, native-blocking, interrupt-swallowing and None/0/()-returning functions and nested calls',
            'model_checking': res['mc'], 'behaviours_of_the_model': res['n_behaviours'], 'behaviours_replayed': res['n_replayed'],
-           'behaviours_not_forceable': res['n_skipped_unrealisable'], 'uncontrolled_executions': res['n_sweep'], 'exhaustive': False}
+           'behaviours_not_forceable': res['n_skipped_unrealisable'],
+           'executions_that_left_the_forced_behaviour': res.get('n_left_forced_behaviour', 0), 'uncontrolled_executions': res['n_sweep'], 'exhaustive': False}
     return {'level': 'model_checking', 'coverage': cov, 'violations': viol,
             'assumptions': ['the seven hook points mark the caller steps of the model; get() returning a value or the function\'s '
                             'exception has no hook (its order is implied)', 'a behaviour in which an idle worker thread outlives '
